@@ -120,9 +120,16 @@ func VerifC01File() {
 	c := c01FileCases[nd.Choose("case", len(c01FileCases))]
 	r := faPrepare(c)
 	stmtPattern := r.locs[0].stmts
+	// LENVAR (thorough): one solver-chosen site per run gets a leaf that is one byte longer
+	lenSite := 0
+	if nd.Param("LENVAR", 0) == 1 && len(r.sites) > 1 {
+		lenSite = nd.Choose("lensite", len(r.sites))
+	}
 	for k := range r.sites {
+		faLenVarOff = k != lenSite
 		r.symboliseSite(k)
 	}
+	faLenVarOff = false
 	ch := r.prog.Changes[0]
 	d, ok := ch.Match(r.file)
 	anyWant, allWant, n := false, true, 0
